@@ -57,6 +57,15 @@ def run(pid, tier, seed, root, repo, env):
                 out["fails"].append({"prop": "C20", "what": "long-game-aborts", "start": "harness/target/release/longgame play %d" % n, "actions": [],
                                      "detail": "exit status %d: %s" % (rc, (se or so)[-600:])})
                 break
+        rounds = 25 if tier == "quick" else 200
+        rc, so, se = _run([exe, "race", "120000", str(rounds)], env, 3600)
+        out["evals"] += rounds
+        out["nontrivial"] += 1
+        out["counts"]["C20-concurrent-drop-rounds"] = rounds
+        out["samples"].append({"longgame race 120000 %d" % rounds: so.strip()[:200], "exit": rc})
+        if rc != 0:
+            out["fails"].append({"prop": "C20", "what": "concurrent-drop-of-long-history-aborts", "start": "harness/target/release/longgame race 120000 %d" % rounds, "actions": [],
+                                 "detail": "exit status %d: %s" % (rc, (se or so)[-600:])})
         rc, so, se = _run([exe, "probe", "1000", "100000" if tier == "quick" else "1000000"], env, 3600)
         try:
             r = json.loads(so.strip().splitlines()[-1])
